@@ -38,4 +38,161 @@ theorem mem_visible (user : List String) (l : List Res) (r : Res) :
     r ∈ visible user l ↔ r ∈ l ∧ hasAccess r.required user = true := by
   simp [visible]
 
+/-! ### histories -/
+
+
+def rolesOf (s : AState) (u : String) : Option (List String) := (findU s.online u).map (·.roles)
+
+theorem findU_setRoles (u : String) (roles : List String) (l : List UnitSt) (v : String) :
+    (findU (setRoles u roles l) v).map (·.roles) =
+      if v = u then (findU l v).map (fun _ => roles) else (findU l v).map (·.roles) := by
+  induction l with
+  | nil => simp [findU, setRoles]
+  | cons x rest ih =>
+    simp only [setRoles, List.map_cons] at ih ⊢
+    by_cases hx : x.id = u
+    · by_cases hv : v = u
+      · subst hv; simp [findU, hx]
+      · have : ¬ u = v := fun e => hv e.symm
+        have hxv : ¬ x.id = v := fun e => hv (e ▸ hx)
+        simp only [hx, if_true, findU, this, hxv, if_false, hv] at ih ⊢
+        exact ih
+    · by_cases hxv : x.id = v
+      · have hv : ¬ v = u := fun e => hx (hxv.trans e)
+        simp [findU, hx, hxv, hv]
+      · simp only [hx, if_false, findU, hxv]
+        exact ih
+
+theorem findU_setRun (u : String) (run : Option String) (l : List UnitSt) (v : String) :
+    (findU (setRun u run l) v).map (·.roles) = (findU l v).map (·.roles) := by
+  induction l with
+  | nil => simp [findU, setRun]
+  | cons x rest ih =>
+    simp only [setRun, List.map_cons] at ih ⊢
+    by_cases hx : x.id = u
+    · by_cases hxv : x.id = v
+      · have : u = v := hx ▸ hxv
+        simp [findU, hx, hxv, this]
+      · have : ¬ u = v := fun e => hxv (hx.trans e)
+        simp only [hx, if_true, findU, this, hxv, if_false]
+        exact ih
+    · by_cases hxv : x.id = v
+      · have hvu : ¬ v = u := fun e => hx (hxv.trans e)
+        simp [findU, hxv, hvu]
+      · simp only [hx, if_false, findU, hxv]
+        exact ih
+
+theorem findU_append (l : List UnitSt) (x : UnitSt) (v : String) :
+    findU (l ++ [x]) v = (findU l v).or (if x.id = v then some x else none) := by
+  induction l with
+  | nil => simp [findU]
+  | cons y rest ih =>
+    simp only [List.cons_append, findU]
+    by_cases hy : y.id = v
+    · simp [hy]
+    · simp [hy, ih]
+
+theorem findU_filter (l : List UnitSt) (u v : String) :
+    findU (l.filter (fun y => y.id ≠ u)) v = if v = u then none else findU l v := by
+  induction l with
+  | nil => simp [findU]
+  | cons x rest ih =>
+    simp only [List.filter_cons]
+    by_cases hx : x.id = u
+    · simp only [hx, ne_eq, not_true_eq_false, decide_false, Bool.false_eq_true, if_false, findU]
+      by_cases hv : v = u
+      · simpa [hv] using ih
+      · have : ¬ u = v := fun e => hv e.symm
+        simp only [hv, if_false, this] at ih ⊢
+        exact ih
+    · simp only [ne_eq, hx, not_false_eq_true, decide_true, if_true, findU]
+      by_cases hxv : x.id = v
+      · have hv : ¬ v = u := fun e => hx (hxv.trans e)
+        simp [hxv, hv]
+      · simp only [hxv, if_false]
+        exact ih
+
+/-- one step keeps the model's roles in line with the specification -/
+theorem step_agrees (s : AState) (m : String → Option (List String)) (e : Event)
+    (h : ∀ v, rolesOf s v = m v) : ∀ v, rolesOf (step s e) v = specStep m e v := by
+  intro v
+  cases e with
+  | connect u roles =>
+    simp only [step, specStep]
+    cases hf : findU s.online u with
+    | some x =>
+      simp only [rolesOf, findU_setRoles]
+      by_cases hv : v = u
+      · subst hv; simp [hf]
+      · simp [hv, ← h v, rolesOf]
+    | none =>
+      simp only [rolesOf, findU_append]
+      by_cases hv : v = u
+      · subst hv; simp [hf]
+      · have : ¬ u = v := fun e => hv e.symm
+        simp [hv, this, ← h v, rolesOf]
+  | uodInfo u roles =>
+    simp only [step, specStep, rolesOf, findU_setRoles]
+    by_cases hv : v = u
+    · subst hv
+      have := h v
+      simp only [rolesOf] at this
+      cases hf : findU s.online v with
+      | some x => simp [hf] at this; simp [hf, ← this]
+      | none => simp [hf] at this; simp [hf, ← this]
+    · simp [hv, ← h v, rolesOf]
+  | runStarted u r =>
+    simp only [step, specStep]
+    split
+    · exact h v
+    · split
+      · simp only [rolesOf, findU_setRun]; exact h v
+      · split
+        · exact h v
+        · simp only [rolesOf, findU_setRun]; exact h v
+  | runStopped u r =>
+    simp only [step, specStep]
+    split
+    · exact h v
+    · split
+      · exact h v
+      · simp only [rolesOf, findU_setRun]; exact h v
+  | disconnect u =>
+    simp only [step, specStep]
+    cases hf : findU s.online u with
+    | none =>
+      by_cases hv : v = u
+      · subst hv; simp [rolesOf, hf]
+      · simp [hv, ← h v]
+    | some x =>
+      simp only [rolesOf, findU_filter]
+      by_cases hv : v = u
+      · simp [hv]
+      · simp [hv, ← h v, rolesOf]
+
+theorem foldl_agrees (h : List Event) : ∀ (s : AState) (m : String → Option (List String)),
+    (∀ v, rolesOf s v = m v) → ∀ v, rolesOf (h.foldl step s) v = h.foldl specStep m v := by
+  induction h with
+  | nil => intro s m hm; exact hm
+  | cons e rest ih => intro s m hm; exact ih (step s e) (specStep m e) (step_agrees s m e hm)
+
+theorem find_worldOf_units (s : AState) (u : String) :
+    find (worldOf s).units u = (findU s.online u).map (fun x => ⟨x.id, x.roles⟩) := by
+  simp only [worldOf]
+  induction s.online with
+  | nil => simp [find, findU]
+  | cons x rest ih =>
+    simp only [List.map_cons, find, findU]
+    by_cases hx : x.id = u <;> simp [hx, ih]
+
+
+theorem findU_id (l : List UnitSt) (u : String) (x : UnitSt) (h : findU l u = some x) : x.id = u := by
+  induction l with
+  | nil => simp [findU] at h
+  | cons y rest ih =>
+    simp only [findU] at h
+    by_cases hy : y.id = u
+    · simp [hy] at h; rw [← h]; exact hy
+    · simp [hy] at h; exact ih h
+
 end OPM.Access
